@@ -554,6 +554,33 @@ pub fn generate(rng: &mut Rng) -> Program {
                 names,
             }
         }
+        4..=5 if rng.chance(120) => {
+            // a WIDE module: many fns, each with its own deps bounds plus bounds shared with the
+            // others (what bound merging / de-duplication code has to get right)
+            let mname = *rng.pick(&["wide", "m", "svc"]);
+            let (attr, mut names) = gen_fn_attr(rng);
+            names.push(mname.to_string());
+            let n = rng.range(5, 14) as usize;
+            let shared = *rng.pick(&["Common", "Bar", "Clock"]);
+            let mut items = vec![];
+            for i in 0..n {
+                let asy = if rng.chance(250) { "async " } else { "" };
+                let dep = match rng.below(4) {
+                    0 => format!("deps: &(impl {shared} + Only{i})"),
+                    1 => format!("deps: &(impl Only{i} + {shared} + Only{})", i + 1),
+                    2 => format!("deps: &(impl {shared} + Only{} + Only{i})", (i + 5) % n),
+                    _ => format!("deps: &impl Only{i}"),
+                };
+                items.push(format!("pub {asy}fn w{i}({dep}, x: i32) -> i32 {{ x }}"));
+            }
+            Program {
+                variant,
+                attr,
+                item: format!("pub mod {mname} {{ {} }}", items.join(" ")),
+                origin: "gen:widemod".to_string(),
+                names,
+            }
+        }
         4..=5 => {
             let mname = *rng.pick(&["m", "foo", "repo"]);
             let (attr, mut names) = gen_fn_attr(rng);
